@@ -101,6 +101,16 @@ def run(ctx):
         cases += cases_for(ctx, t, 2, rng)
     for t in pick3:
         cases += cases_for(ctx, t, 3, rng)
+    # fixed depth-3 trees with a truly empty sub-fiber first / in the middle (never last: that class belongs to a known finding) next to populated ones
+    L = lambda *cv: {"k": "F", "e": [[c, {"k": "L", "v": v}] for c, v in cv]}          # noqa: E731
+    E = {"k": "F", "e": []}
+    fixed = [
+        {"k": "F", "e": [[0, E], [1, {"k": "F", "e": [[0, L((0, 1), (2, 1))]]}], [2, {"k": "F", "e": [[0, L((0, 1), (1, 2))], [1, L((2, 1))]]}]]},
+        {"k": "F", "e": [[0, {"k": "F", "e": [[1, L((1, 2))]]}], [1, E], [2, {"k": "F", "e": [[0, L((0, 1))], [2, L((1, 1), (2, 2))]]}]]},
+        {"k": "F", "e": [[0, {"k": "F", "e": [[0, E], [1, L((0, 1), (1, 1))]]}], [2, {"k": "F", "e": [[0, L((2, 2))], [1, E], [2, L((0, 1))]]}]]},
+    ]
+    for t in fixed:
+        cases += cases_for(ctx, t, 3, rng)
     for _ in range(90 if ctx.quick else 1000):
         depth = rng.choice([3, 4])
         cases += cases_for(ctx, rand_tree(rng, 3, depth, pz=0.2, pabs=0.3), depth, rng)
